@@ -137,8 +137,16 @@ def check(index, ctx):
                         ctx.violated("R2", "UPGrad: projected weight rows are summed over the axis indexing the projected vectors",
                                      f"the projected weights are reduced by `{w_['text']}` ({w_['fn']} over {w_.get('over')}) instead of a single sum over dim 0", w_["loc"])
                     else:
-                        ctx.undecided("R2", "UPGrad: projected weight rows are summed over the axis indexing the projected vectors",
-                                      "no reduction of the projected weights was recognised (the sum may be written as a loop)", cls.loc())
+                        # the sum written as a loop: `acc += project(u_i e_i)` for every row index i, acc starting at zero
+                        acc = [e for e in ev if e["kind"] == "inplace" and _agg.in_weighting(e, W_UP) and e.get("op") == "Add" and "solve_qp" in (e.get("rhs_origin") or [])]
+                        sites = {e["loc"] for e in acc}
+                        scat = [e for e in ev if e["kind"] == "sop" and e["sop"] == "index_put" and _agg.in_weighting(e, W_UP) and e.get("in_idx_of") == "R" and e.get("in_origin") == ["loop-index"]
+                                and e.get("base_poly") == Poly.const(0) and not e.get("aug")]
+                        if len(sites) == 1 and all(e.get("over_loop_index") and e.get("target_axes") == ["R"] for e in acc) and scat and "solve_qp" in r.value.origin:
+                            ctx.ok("R2", pk + " sum as accumulation", "one accumulation `acc += project(u_i·e_i)` over every row index i: the sum over the projected vectors, term by term", cls.loc())
+                        else:
+                            ctx.undecided("R2", "UPGrad: projected weight rows are summed over the axis indexing the projected vectors",
+                                          "no reduction of the projected weights was recognised (the sum may be written as a loop)", cls.loc())
     ctx.floor("returning paths of UPGrad/DualProj", n, 4)
     _agg.common_evidence(ctx, index)
     ctx.assumptions.append("exactness and uniqueness of the QP solution, and the two 'consequently' clauses, are numerical and NOT decided")
